@@ -1,8 +1,8 @@
 #!/bin/bash
-# tools/confirm_seed.sh <Cxx> <suffix: "" or 2>  -- confirm a seeded change in a scratch worktree of the pinned commit:
+# [SEEDROOT=/tmp/seed2 BASE=<commit>] tools/confirm_seed.sh <Cxx> <suffix: "" or 2>  -- confirm a seeded change in a scratch worktree of BASE (default: the pinned commit):
 # (1) applies and compiles, (2) existing suite passes with it, (3) demo fails with it, (4) demo passes without it.
-ID="$1"; SFX="$2"; SRC=/tmp/seed/out_$ID; BASE=${BASE:-cf8b87f}
-WT=/tmp/confirm_wt_$ID$SFX; OUT=/tmp/seed/confirm; mkdir -p $OUT
+ID="$1"; SFX="$2"; ROOT=${SEEDROOT:-/tmp/seed}; SRC=$ROOT/out_$ID; BASE=${BASE:-cf8b87f}
+WT=/tmp/confirm_wt_$ID$SFX; OUT=$ROOT/confirm; mkdir -p $OUT
 PATCH=$SRC/patch$SFX.diff; DEMO=$SRC/demo$SFX.rs
 [ -f "$PATCH" ] && [ -f "$DEMO" ] || { echo "{\"id\":\"$ID$SFX\",\"error\":\"missing files\"}" > $OUT/$ID$SFX.json; exit 1; }
 git -C /repo worktree remove --force $WT 2>/dev/null; rm -rf $WT
